@@ -44,6 +44,8 @@ def main():
                 res.setdefault('checks', {})[c] = {'exit': rc, 'lines': [l for l in out.splitlines() if l.startswith(('VIOLATION', 'KNOWN', 'TOOL', c))][-4:]}
         finally:
             sh('git -C /repo checkout -- .')
+            # bring the generated model back in line with the restored tree
+            sh('/venv/bin/python /verif/py2lean/translate.py /repo /verif/lean/Dhlldv/Gen; /venv/bin/python /verif/py2lean/effects.py /repo /verif/lean/Dhlldv/Gen')
     print(json.dumps(res, indent=1))
 
 main()
